@@ -43,7 +43,8 @@ CONSTANTS Docs,        \* document numbers
 None == [a |-> "none"]
 
 VARIABLES
-  allow, eccv, clen,            \* configuration: AllowConflicts, cross-cluster versioning, length of every content
+  allow, eccv, clen, cenc, celen,  \* configuration: AllowConflicts, cross-cluster versioning; per content: advertised (decoded) length, is it
+                                \*   written with "encoding" (the stored bytes are the ENCODED ones), its encoded_length (-1 = none advertised)
   tree, cur, gen, cls, nr,      \* tree[d] = rev -> [p, d]; current (winning) revision of d (0 = none); generation and id class of every
                                 \*   revision (0 = pushed low, 1 = generated, 2 = pushed high); number of revision ids handed out
   atts,                         \* atts[d] = leaf -> (name -> [c, pos, len]): the attachment list the gateway resolves for each LEAF
@@ -58,7 +59,7 @@ VARIABLES
                                 \*   by the named deviation; deviation kinds seen; the last step was a completed successful write
   hist
 
-conf  == <<allow, eccv, clen>>
+conf  == <<allow, eccv, clen, cenc, celen>>
 impl  == <<tree, cur, gen, cls, nr, atts, old, rd, api, apierr, blob, badblob, pend, inner>>
 ghost == <<want, residue, tainted, dev, settled>>
 vars  == <<conf, impl, ghost, hist>>
@@ -91,11 +92,12 @@ Refs(A)      == {A[l][n].c : <<l, n>> \in {ln \in (DOMAIN A) \X Names : ln[2] \i
 RdOf(A, B)   == [d \in Docs |-> [l \in DOMAIN A[d] |-> [n \in DOMAIN A[d][l] |-> IF <<d, A[d][l][n].c>> \in B THEN A[d][l][n].c ELSE -1]]]
 ApiErrOf(A, B) == [d \in Docs |-> {l \in DOMAIN A[d] : \E n \in DOMAIN A[d][l] : <<d, A[d][l][n].c>> \notin B}]
 ApiOf(A, B)  == [d \in Docs |-> [l \in (DOMAIN A[d]) \ ApiErrOf(A, B)[d] |->
-                    [n \in DOMAIN A[d][l] |-> [c |-> A[d][l][n].c, len |-> A[d][l][n].len, rd |-> A[d][l][n].c]]]]
+                    [n \in DOMAIN A[d][l] |-> [c |-> A[d][l][n].c, len |-> A[d][l][n].len, rd |-> A[d][l][n].c, enc |-> A[d][l][n].enc, elen |-> A[d][l][n].elen]]]]
 
 -----------------------------------------------------------------------------
 Init ==
   /\ allow \in Modes /\ eccv \in Eccvs /\ clen = [c \in Contents |-> c]
+  /\ cenc = [c \in Contents |-> c = 2] /\ celen = [c \in Contents |-> IF c = 2 THEN 100 + c ELSE -1]      \* content 2 is the encoded one
   /\ tree = [d \in Docs |-> <<>>] /\ cur = [d \in Docs |-> 0] /\ gen = (0 :> 0) /\ cls = (0 :> 1) /\ nr = 0
   /\ atts = [d \in Docs |-> <<>>] /\ old = [d \in Docs |-> <<>>] /\ rd = [d \in Docs |-> <<>>] /\ api = [d \in Docs |-> <<>>] /\ apierr = [d \in Docs |-> {}]
   /\ blob = {} /\ badblob = {} /\ pend = None /\ inner = 0
@@ -126,10 +128,11 @@ LegalS(d, k, p, s) ==
         /\ n \in DOMAIN PList(d, p) /\ <<d, PList(d, p)[n].c>> \in blob
 Legal(d, k, p, s) == LegalKP(d, k, p) /\ LegalS(d, k, p, s)
 
-(* the list recorded for the new revision: New = digest of the data, revpos = its generation; Stub = the parent's entry *)
+(* the list recorded for the new revision: New = digest of the data, revpos = its generation, length, encoding and encoded_length as
+   the client gave them; Stub = the parent's WHOLE entry *)
 NewList(d, r, p, s, g) ==
-  [n \in Carried(s) |-> IF s[n] > 0 THEN [c |-> s[n], pos |-> g[r], len |-> clen[s[n]]]
-                        ELSE IF n \in DOMAIN PList(d, p) THEN PList(d, p)[n] ELSE [c |-> 0, pos |-> 0, len |-> 0]]
+  [n \in Carried(s) |-> IF s[n] > 0 THEN [c |-> s[n], pos |-> g[r], len |-> clen[s[n]], enc |-> cenc[s[n]], elen |-> celen[s[n]]]
+                        ELSE IF n \in DOMAIN PList(d, p) THEN PList(d, p)[n] ELSE [c |-> 0, pos |-> 0, len |-> 0, enc |-> FALSE, elen |-> -1]]
 
 (* ImplCommit: the document afterwards (tree nt, winner nc are parameters: the model adds the revision, the trace gives the recorded
    tree, which may also have been pruned), the lists, and the sweep.  Documents hit by the named deviation (skip) are not described. *)
@@ -255,16 +258,18 @@ CollectedOn(D) ==         \* nothing is kept that no leaf references (unless cro
         \/ b[2] \in Refs(atts[b[1]])
         \/ b \in residue \cup PendStored
 NoStrayData == (~eccv /\ settled) => \A b \in blob : b[1] \in Docs /\ b[2] \in Contents      \* no data document under a foreign key
+(* the advertised length, encoding and encoded_length of an entry are those content c was written with *)
+AsWritten(e, c) == c \in Contents /\ e.len = clen[c] /\ e.enc = cenc[c] /\ e.elen = celen[c]
 IntactOn(D) ==            \* every leaf lists exactly what was written on it; the bytes, digest and length read back are those written
   /\ \A d \in D : \A l \in Leaves(tree[d]) : l \in DOMAIN want =>
        /\ l \in DOMAIN atts[d] /\ DOMAIN atts[d][l] = DOMAIN want[l]
        /\ \A n \in DOMAIN want[l] : n \in DOMAIN atts[d][l] =>
-            /\ atts[d][l][n].c = want[l][n].c /\ atts[d][l][n].len = clen[want[l][n].c] /\ rd[d][l][n] = want[l][n].c
+            /\ atts[d][l][n].c = want[l][n].c /\ AsWritten(atts[d][l][n], want[l][n].c) /\ rd[d][l][n] = want[l][n].c
        /\ (tree[d][l].d \/ l \notin apierr[d])
        /\ l \in DOMAIN api[d] =>
             /\ (~tree[d][l].d => DOMAIN api[d][l] = DOMAIN want[l])
             /\ \A n \in DOMAIN api[d][l] : n \in DOMAIN want[l] /\
-                 api[d][l][n].c = want[l][n].c /\ api[d][l][n].len = clen[want[l][n].c] /\ api[d][l][n].rd = want[l][n].c
+                 api[d][l][n].c = want[l][n].c /\ AsWritten(api[d][l][n], want[l][n].c) /\ api[d][l][n].rd = want[l][n].c
   /\ \A b \in badblob : b[1] \notin D
 LeafSafe  == LeafSafeOn(Docs)
 Collected == CollectedOn(Docs) /\ NoStrayData
